@@ -47,6 +47,8 @@ class DryReal:
             elif r < 0.45:
                 op["perturb"] = "tag_collision"   # the version about to be announced already exists as a tag elsewhere
                 op["collision_flag"] = rng.choice([["--tag-scope", "branch"], ["--ignore-vcs-tag"]])
+            elif r < 0.55:
+                op["perturb"] = "remote_tag"      # a colleague has released in the meantime; the tag arrives with the fetch
             op["pick"] = rng.randrange(1000)
             ops.append(op)
         return {"project": project, "ops": ops}
@@ -131,6 +133,12 @@ class DryReal:
                         w_.repo.commit_log = []
                     args = args + list(op.get("collision_flag", []))
                     ctx.probe("forked_with_tag_collision")
+            if perturb == "remote_tag" and wa.repo is not None and wa.repo.remote and not op.get("sv"):
+                exp = tc.expectation(ctx, tree, state, text, {}, clock, False)
+                if exp[0] == "ok" and exp[2]:
+                    for w_ in (wa, wb):
+                        w_.repo.pending_remote_tags = [exp[2]]
+                    ctx.probe("forked_with_unfetched_remote_tag")
             shim_a = fakevcs.VcsShim(wa.repo) if wa.repo is not None else None
             shim_b = fakevcs.VcsShim(wb.repo) if wb.repo is not None else None
             ra = invoker.invoke(wa.dir, ["update", "--dry"] + args, clock, shim_a, fakevcs.HookShim({}))
@@ -152,6 +160,13 @@ class DryReal:
                 # known finding F19: a file whose occurrences already show what the new version renders to
                 facts["file_already_current"] = bool(override) and all(
                     rb_.after.get(pth) == rb_.before.get(pth) for (pth, _rg) in override)
+                # the same defect reached another way (the current version comes from a VCS tag that is ahead of the files):
+                # the file the dry run complains about is one the real run had nothing to change in
+                for _l, _n, msg in ra.logs:
+                    if msg.startswith("No patterns matched for file '") and msg.endswith("'"):
+                        named = msg[len("No patterns matched for file '"):-1]
+                        if rb_.exit_code == 0 and named in rb_.before and rb_.after.get(named) == rb_.before.get(named):
+                            facts["file_already_current"] = True
                 if rb_.changed or rb_.exit_code == 0:
                     # C06: whenever --dry reports an error the real run changes nothing either
                     ctx.violation("C06", "dry_error_but_real_changed", facts,
